@@ -7,7 +7,7 @@ C02 — the hypotheses of `net_safety` discharged by NAMED theorems of the neigh
   receive journal of a direction follows a history of the C07 receiver model, so a packet number the sink dispatched is
   never accepted by `decode_pn` again, however it is encoded — "each packet number at most once" is C07's theorem
   transported (the C02 invariant `deliv_nodup` used `Lemmas/Rcvd` directly; this file goes through the Props theorem).
-* C06 is NOT connected here, and cannot be with C06 as it stands: `Protect.IdealFor` is a SINGLE-packet game (nothing
+* (Superseded: see `Props/C02/LinkC06.lean`, which uses C06's multi-packet `IdealOver`.)  Earlier note — C06 was NOT connected here while it had only `Protect.IdealFor` is a SINGLE-packet game (nothing
   opens under any key except the one sealed packet), while `Crypto.open_seal` requires every sealed packet to open.
   For any `Crypto` instance whose `openP` accepts only what `Protect.receive` accepts, `IdealFor` + `open_seal` force
   all packets to share one ciphertext and `open_seal` then fails for two different packets: the joint hypotheses are
